@@ -13,7 +13,7 @@ from .lib import deep_copy
 class Contract:
     def __init__(self, qual, params=None, requires=(), ensures=(), raises=None, loops=None, cuts=None,
                  mode='inline', result=None, modifies=(), cases=None, top=None, note='', old=(), setup=None,
-                 allow_raises=None, ghost=None, pure=False, use=(), let=None, may_raise=None, use_entry=(), opaque=(), merge=True):
+                 allow_raises=None, ghost=None, pure=False, use=(), let=None, may_raise=None, use_entry=(), opaque=(), merge=True, callee_loops=None):
         self.qual = qual
         self.params = dict(params or {})
         self.requires = [requires] if isinstance(requires, str) else list(requires)
@@ -32,6 +32,7 @@ class Contract:
         self.ghost = ghost or {}
         self.pure = pure
         self.use_entry = [use_entry] if isinstance(use_entry, str) else list(use_entry)   # lemma instances assumed at entry
+        self.callee_loops = dict(callee_loops or {})   # qual of an inlined callee -> {loop ordinal: LoopSpec}
         self.merge = merge                    # merge states at if-joins (False: always fork; more, simpler obligations)
         self.opaque = tuple(opaque)            # spec functions kept opaque (not unfolded) in this function's obligations
         self.may_raise = dict(may_raise or {})   # {'Exc': cond}: may (not must) raise when cond held at entry
@@ -175,6 +176,13 @@ def verify_function(ip, con, fuel_note=None):
         if ordinal < 1 or ordinal > len(loops):
             raise Unsupported('contract of %s names loop %d but the function has %d loops' % (con.qual, ordinal, len(loops)))
         ip.loop_specs[id(loops[ordinal - 1])] = spec
+    for cq, cl in con.callee_loops.items():
+        cnode, _, _ = ip.repo.function(cq)
+        cloops = loops_in_order(cnode)
+        for ordinal, spec in cl.items():
+            if ordinal < 1 or ordinal > len(cloops):
+                raise Unsupported('contract of %s names loop %d of callee %s which has %d loops' % (con.qual, ordinal, cq, len(cloops)))
+            ip.loop_specs[id(cloops[ordinal - 1])] = spec if isinstance(spec, LoopSpec) else LoopSpec(**spec)
     ip.cuts = dict(con.cuts)
     ip.cur_func = con.qual
     try:
